@@ -977,6 +977,7 @@ def write_tex(matrix, matrix_size, out, scale=1, border=None, dark='black', unit
     check_valid_scale(scale)
     check_valid_border(border)
     border = get_border(matrix_size, border)
+    unit = unit or 'pt'
     end_marker = ''
     with writable(out, 'wt') as f:
         write = f.write
